@@ -258,13 +258,17 @@ func (r *Report) Finish(verifDir string, level string) int {
 		"lists":                 r.Lists,
 		"exhaustive":            false,
 	}
+	assumptions := append([]string{
+		"the analysed program is what `go/packages` loads for ./... of /repo without test files; mocks (pkg/mocks, pkg/dochandler/mocks, *.gen.go) are excluded as subjects",
+		"interface calls are resolved to the non-mock implementations inside the module",
+	}, r.Assumptions...)
 	ev := map[string]any{
 		"property_id": r.Property,
 		"tier":        r.Tier,
 		"seed":        r.Seed,
 		"level":       level,
 		"coverage":    cov,
-		"assumptions": r.Assumptions,
+		"assumptions": assumptions,
 		"wall_s":      wall,
 		"violations":  len(bad),
 	}
